@@ -361,6 +361,20 @@ def check_stack_size(ctx, P, strategy, tag=""):
                 bad = bad or "cannot evaluate the allocation size for a request of %d bytes" % req
             elif got < req:
                 bad = bad or "a request of %d bytes allocates only %d bytes" % (req, got)
+        if strategy == "malloc":
+            # tiny requests: the block must at least hold the initial frame fiber_context_init writes below its (16-aligned) top
+            for req in (1, 16, 64):
+                m = Machine(al, P, atom_from([(is_param_load(al, "stack_size"), req)]))
+                pd = [p["did"] for p in al.params if p["name"] == "stack_size"][0]
+                m.vals[pd] = req
+                try:
+                    hit = m.run("entry", lambda n: n is calls[0])
+                    got = m.eval(al.args(calls[0])[argi]) if hit is not None else None
+                except Unevaluable:
+                    got = None
+                if got is not None and got < 128:
+                    bad = bad or ("a request of %d bytes allocates %d bytes: the initial frame (nine 8-byte slots below a 16-aligned top) is written below the "
+                                  "allocation, into the neighbouring heap block, and fiber_context_init reports success" % (req, got))
         if strategy in ("malloc", "mmap"):
             st = al.stores_to(CTX, "ctx_stack_size")
             if len(st) != 1:
